@@ -333,6 +333,8 @@ def r4_dispatch_table(F, X, rep):
             if c.noise or not (c.name.endswith("HashMap::drain") or c.name.endswith("HashMap::into_iter") or c.name.endswith("IntoIterator::into_iter")) or not c.args:
                 continue
             e = strip(X.operand(b, c.args[0]))
+            if not c.name.endswith("HashMap::drain") and not all(t[0] == "field" for t in alts(e)):
+                continue                          # `for m in self.rpcmethods.values()`: a borrowing view is iterated, the map stays
             for y in walk(e):
                 if y[0] == "field" and canon(y[2] or "").endswith("cln_plugin::Builder") and y[1] in ("rpcmethods", "hooks", "subscriptions"):
                     drains.setdefault(y[1], set()).add(c.loc)
@@ -395,7 +397,10 @@ def r6_id_classification(F, X, rep):
             facts = [f0]
         else:
             # the arm's body was moved into a helper (`Some(id) => Self::request_from_value(id, v)`): what holds at its call sites
-            cs = callers(b)
+            owner = b
+            if "{closure" in b.cdef and F.by_cdef.get(F.root_of(b)) is not None:
+                owner = F.by_cdef[F.root_of(b)]           # `.unwrap_or_else(|_| JsonRpc::CustomNotification(raw))` inside the helper
+            cs = callers(owner)
             facts = [id_fact(hb, c.bb) for hb, c in cs]
             if not cs or any(f is None for f in facts):
                 facts = []
@@ -414,7 +419,7 @@ def r6_id_classification(F, X, rep):
             okid = all(a[0] == "field" and a[1] == "0" and a[3] == "Some" and any(show(strip(a[4])) == show(f[0]) for f in facts) for a in alts(e0))
             rep.ob(rid, okid, fn, "the request carries the message's own id", where=loc(s["sp"]), how=show(e0)[:80],
                    detail="" if okid else "JsonRpc::%s carries id %s, not the id of the decoded message" % (var, show(e0)[:80]))
-    rep.anchor(rid, "JsonRpc values built by the message decoder", n, 4)
+    rep.anchor(rid, "JsonRpc values built by the message decoder", n, 2)      # (4 today; a variant constructor passed to `map` builds no aggregate here)
 
 
 def t_id_type(F, X, rep):
